@@ -121,6 +121,7 @@ def run(tier, PROP):
         if PROP == "C19":
             run_bufread(chk, repo, d, tier, broken)
         if PROP == "C16":
+            run_atomic_stress(chk, repo, d, tier, broken)
             # the emitted atomic instructions through the whole pipeline: real w2c2 -> gcc (-DWASM_THREADS_PTHREADS) vs V8; the
             # directed corpus module calls every one of the 63 instructions (old value and resulting cell)
             import e2e_extra
@@ -138,6 +139,26 @@ def run(tier, PROP):
     elif broken:
         chk.notes.append({"broken": broken[:10]})
     return chk.finish()
+
+
+def run_atomic_stress(chk, repo, d, tier, broken):
+    """Real threads on the real accessor functions (add / xchg / cmpxchg of every width): a lost update, a value returned
+    twice or never, or two successful CASes on the same old value is a history no total order explains."""
+    import atomic_stress
+    threads, iters = (8, 100000) if tier == "quick" else (16, 1000000)
+    try:
+        exe = atomic_stress.build(repo, d)
+        res = atomic_stress.run(exe, threads, iters)
+    except Exception as e:
+        broken.append({"kind": "harness-build", "msg": "atomic-stress: " + str(e)[-800:]})
+        return
+    for r in res:
+        chk.count_case(("atomic-stress", r[0], threads, iters), True, None)
+        if r[1] != "ok":
+            chk.violation(r[0] + "-concurrent-history", "%s under %d real threads: %s" % (r[0], threads, r[2] if len(r) > 2 else r[1]),
+                          {"atomic_stress": r[0], "threads": threads, "iters": iters, "observed": " ".join(r)}, True)
+    chk.coverage["atomic_stress"] = {"flavours": len(res), "threads": threads, "operations_per_thread": iters,
+                                     "note": "a stress run can only exhibit a failure, never show its absence: the concurrency claim rests on Props/C16Conc + the single-step assumption"}
 
 
 def run_bufread(chk, repo, d, tier, broken):
@@ -193,6 +214,14 @@ def mo_run(exe, lines):
 def replay(path, PROP):
     import json
     r = json.load(open(path))
+    if "atomic_stress" in r:
+        import atomic_stress
+        with vlib.scratch("memr-") as d:
+            repo = vlib.copy_repo(os.path.join(d, "repo"))
+            res = atomic_stress.run(atomic_stress.build(repo, d), r["threads"], r["iters"])
+        bad = [x for x in res if x[0] == r["atomic_stress"] and x[1] != "ok"]
+        print("replay atomic-stress %s (%d threads x %d): %s" % (r["atomic_stress"], r["threads"], r["iters"], " ".join(bad[0]) if bad else "ok"))
+        return 1 if bad else 0
     if "bufread" in r:
         import bufread
         with vlib.scratch("memr-") as d:
